@@ -275,6 +275,29 @@ def check_map(sh, tm, ubis, shape, mask, case):
             if t.shape != m.shape or not np.array_equal(np.isnan(t), np.isnan(m)) or not np.array_equal(t[~mask], m[~mask]):
                 sh.violation("TensorMap.%s:differs-from-function" % k, case, {})
                 return False
+    if len(shape) == 3:
+        # history on ONE map object: the derived maps are read, the UBI map is replaced through each of the three public routes (the voxels
+        # in another order, another NaN mask), the derived maps are read again: they are those of the new UBI map
+        new = um[..., ::-1, :, :].copy() if um.shape[-3] > 1 else um * 1.01
+        want = {"UB": tm.fast_invert(new), "mt": tm.ubi_to_mt(new)}
+        want["unitcell"] = tm.mt_to_unitcell(want["mt"], dummy6)
+        want["B"] = tm.unitcell_to_b(want["unitcell"], dummy33)
+        want["U"] = tm.ubi_and_b_to_u(new, want["B"])
+        for route in ("attribute", "item", "add_map"):
+            T2 = tm.TensorMap(maps={"UBI": um.copy()})
+            for k in ("UB", "mt", "unitcell", "B", "U"):
+                getattr(T2, k)
+            if route == "attribute":
+                T2.UBI = new.copy()
+            elif route == "item":
+                T2["UBI"] = new.copy()
+            else:
+                T2.add_map("UBI", new.copy())
+            for k in ("UB", "mt", "unitcell", "B", "U"):
+                t = getattr(T2, k)
+                if t.shape != want[k].shape or not np.array_equal(np.isnan(t), np.isnan(want[k])) or not np.array_equal(t[~np.isnan(t)], want[k][~np.isnan(want[k])]):
+                    sh.violation("TensorMap.%s:stale-after-the-UBI-map-was-replaced" % k, dict(case, route=route), {})
+                    return False
     return True
 
 
